@@ -253,17 +253,144 @@ theorem insertSorted_pairwise (key : α → Nat) (x : α) (l : List α)
       · exact hnlt
       · have := hy.1 z hz; omega
 
+theorem insertSorted_mem_iff {α} (lt : α → α → Bool) (x y : α) (l : List α) : y ∈ insertSorted lt x l ↔ y = x ∨ y ∈ l := by
+  induction l with
+  | nil => simp [insertSorted]
+  | cons z zs ih =>
+    simp only [insertSorted]
+    split
+    · simp [ih]
+      constructor
+      · rintro (h | h | h)
+        · exact Or.inr (Or.inl h)
+        · exact Or.inl h
+        · exact Or.inr (Or.inr h)
+      · rintro (h | h | h)
+        · exact Or.inr (Or.inl h)
+        · exact Or.inl h
+        · exact Or.inr (Or.inr h)
+    · simp
+
+theorem stableSort_mem_iff {α} (lt : α → α → Bool) (y : α) (l : List α) : y ∈ stableSort lt l ↔ y ∈ l := by
+  induction l with
+  | nil => simp [stableSort]
+  | cons x xs ih =>
+    have : stableSort lt (x :: xs) = insertSorted lt x (stableSort lt xs) := rfl
+    rw [this, insertSorted_mem_iff, ih]; simp
+
 theorem stableSort_by_key_desc (key : α → Nat) (l : List α) :
     (stableSort (fun a b => decide (key a > key b)) l).Pairwise fun a b => key a ≥ key b := by
   induction l with
   | nil => simp [stableSort]
   | cons x xs ih => exact insertSorted_pairwise key x _ ih
 
+/-- every element of the list carries the directory of its own path -/
+def DirOf (all : List (Str × Str × List Entry)) : Prop := ∀ y ∈ all, y.2.1 = dirname y.1
+
+/-- a Manifest pulled forward by `queue_manifest` lies in the directory of its referrer -/
+theorem ref_same_dir (all : List (Str × Str × List Entry)) (hall : DirOf all) (x y : Str × Str × List Entry) (r : Str)
+    (hr : r ∈ sameDirRefsOf x) (hf : all.find? (·.1 == r) = some y) : y.2.1 = x.2.1 := by
+  have hy : y ∈ all := List.mem_of_find?_eq_some hf
+  have h1 : (y.1 == r) = true := by
+    have := List.find?_some hf
+    simpa using this
+  have h1 : y.1 = r := by simpa using h1
+  unfold sameDirRefsOf at hr
+  obtain ⟨e, _, he⟩ := List.mem_filterMap.mp hr
+  split at he
+  · rename_i p _ _ _
+    simp only at he
+    split at he
+    · rename_i hd
+      have hd : dirname (pjoin x.2.1 p) = x.2.1 := by simpa using hd
+      have : r = pjoin x.2.1 p := by simpa using he.symm
+      rw [hall y hy, h1, this, hd]
+    · simp at he
+  · simp at he
+
+/-- the invariant of the ordering pass while it works in a directory of length `k`: the order built so far is by
+    non-increasing directory length and nothing in it is shorter than `k` -/
+def QInv (k : Nat) (acc : QAcc) : Prop :=
+  (acc.1.Pairwise fun a b => a.2.1.length ≥ b.2.1.length) ∧ ∀ o ∈ acc.1, o.2.1.length ≥ k
+
+theorem foldl_inv_mem {α β : Type} (P : β → Prop) (f : β → α → β) (l : List α) (b : β)
+    (hb : P b) (hstep : ∀ b a, a ∈ l → P b → P (f b a)) : P (l.foldl f b) := by
+  induction l generalizing b with
+  | nil => simpa
+  | cons a as ih =>
+    simp only [List.foldl_cons]
+    exact ih _ (hstep b a (by simp) hb) (fun b' a' ha' => hstep b' a' (by simp [ha']))
+
+theorem queueManifest_inv (all : List (Str × Str × List Entry)) (hall : DirOf all) (k : Nat) :
+    ∀ (fuel : Nat) (acc : QAcc) (x : Str × Str × List Entry), x.2.1.length = k → QInv k acc →
+      QInv k (queueManifest all fuel acc x) := by
+  intro fuel
+  induction fuel with
+  | zero => intro acc x _ h; simpa [queueManifest] using h
+  | succ fuel ih =>
+    intro acc x hk h
+    simp only [queueManifest]
+    split
+    · exact h
+    · have h1 : QInv k ((sameDirRefsOf x).foldl (queueStep all (queueManifest all fuel)) (acc.1, x.1 :: acc.2)) := by
+        apply foldl_inv_mem (QInv k)
+        · exact h
+        · intro b r hr hb
+          unfold queueStep
+          split
+          · rename_i y hf
+            exact ih b y (by rw [ref_same_dir all hall x y r hr hf, hk]) hb
+          · exact hb
+      refine ⟨?_, ?_⟩
+      · refine List.pairwise_append.mpr ⟨h1.1, by simp, ?_⟩
+        intro a ha b hb
+        have hb : b = x := by simpa using hb
+        subst hb
+        have := h1.2 a ha
+        omega
+      · intro o ho
+        rcases List.mem_append.mp ho with ho | ho
+        · exact h1.2 o ho
+        · have : o = x := by simpa using ho
+          subst this; omega
+
+theorem queue_all_sorted (all : List (Str × Str × List Entry)) (hall : DirOf all) (fuel : Nat) :
+    ∀ (l : List (Str × Str × List Entry)) (acc : QAcc),
+      (l.Pairwise fun a b => a.2.1.length ≥ b.2.1.length) →
+      (acc.1.Pairwise fun a b => a.2.1.length ≥ b.2.1.length) →
+      (∀ o ∈ acc.1, ∀ x ∈ l, o.2.1.length ≥ x.2.1.length) →
+      ((l.foldl (queueManifest all fuel) acc).1.Pairwise fun a b => a.2.1.length ≥ b.2.1.length) := by
+  intro l
+  induction l with
+  | nil => intro acc _ h _; simpa using h
+  | cons x xs ih =>
+    intro acc hl hacc hge
+    simp only [List.foldl_cons]
+    have hx := List.pairwise_cons.mp hl
+    have hq : QInv x.2.1.length (queueManifest all fuel acc x) :=
+      queueManifest_inv all hall _ fuel acc x rfl ⟨hacc, fun o ho => hge o ho x (by simp)⟩
+    refine ih _ hx.2 hq.1 ?_
+    intro o ho y hy
+    have := hq.2 o ho
+    have := hx.1 y hy
+    omega
+
 /-- **children before parents.** In the save order every Manifest comes after all
-    Manifests of strictly deeper directories (longer directory paths). -/
+    Manifests of strictly deeper directories (longer directory paths) - also with the
+    same-directory references moved before their referrers (repair of finding F30). -/
 theorem C03_save_children_first (lm : LoadedMs) :
-    (saveOrder lm).Pairwise fun a b => a.2.1.length ≥ b.2.1.length :=
-  stableSort_by_key_desc (fun (x : Str × Str × List Entry) => x.2.1.length) _
+    (saveOrder lm).Pairwise fun a b => a.2.1.length ≥ b.2.1.length := by
+  unfold saveOrder
+  have hs := stableSort_by_key_desc (fun (x : Str × Str × List Entry) => x.2.1.length)
+    ((lm.map fun (k, v) => (k, dirname k, v)).reverse)
+  have hall : DirOf (sortByDirLenDesc ((lm.map fun (k, v) => (k, dirname k, v)).reverse)) := by
+    intro y hy
+    unfold sortByDirLenDesc at hy
+    have hy := (Gemato.C03.stableSort_mem_iff _ y _).mp hy
+    simp only [List.mem_reverse, List.mem_map] at hy
+    obtain ⟨kv, _, rfl⟩ := hy
+    rfl
+  exact queue_all_sorted _ hall _ _ ([], []) hs (by simp) (by simp)
 
 /- What is NOT proved here (the full statement of C03): that after `updateDir` and `saveAll`
    succeed, every non-hidden non-IGNOREd regular file at or below the path has exactly one entry
